@@ -19,11 +19,13 @@ MODES = [0o644, 0o755, 0o600, 0o700, 0o444]
 NAMES = [b"a", b"b", b"c", b"file.txt", b"a b", b" lead", b"trail ", b".hidden", b"..x", b"...", b"-rf", b"--", b"-",
          "ü".encode(), "日本語".encode(), "é.txt".encode(), b"a\nb", b"a\tb", b"A", b"a.b.c",
          b"x" * 200, b"'q'", b'"dq"', b"$v", b"*", b"?", b"\\", b"a:b", b"a,b", b"~", b"#", b"%s", b"d", b"e", b"sub", b"bin",
-         "‮evil".encode(), b"out", b"tool", b"Makefile", b"z"]
+         "‮evil".encode(), b"out", b"tool", b"Makefile", b"z",
+         # names that LOOK encoded (percent / backslash / HTML escapes, '+' for a space): stored and restored verbatim
+         b"r%20f.txt", b"a%41", b"%2e%2e", b"100%", b"%zz", b"v%31", b"a\\x41", b"a+b", b"&amp;", b"aA"]
 BAD_NAMES = [b"\xff", b"a\xfe", b"\xc3", b"\xe2\x82", b"\xc0\xaf", b"\xed\xa0\x80", b"ok\x80", b"\xf5\x80\x80\x80"]
 CONTENTS = [b"", b"", b"x", b"hello\n", b"\x00\x01\xff", b"#!/bin/sh\necho hi\n", b"y" * 100, b"ab" * 20000,
             b"same", b"same", b"\n", b"x\n"]
-LINKS = [b"nope", b"/etc/hostname", b"/nonexistent/abs", b"../up", b"a b", b".", b"./a", b"x" * 300, "ü".encode()]
+LINKS = [b"nope", b"/etc/hostname", b"/nonexistent/abs", b"../up", b"a b", b".", b"./a", b"x" * 300, "ü".encode(), b"t%20x", b"%2e%2e/up"]
 
 
 def sha16(b):
@@ -425,7 +427,9 @@ def restore_fault_cases(out, tier, rng=None, harness=None):
 def dir_roundtrips(out, tier, r, h):
     ntrees = 260 if tier == "quick" else 5000
     cases = []
-    fixed = [[], [("d", b"e", [])], [("d", b"e", [("d", b"f", [])])],
+    fixed = [[("f", b"a%41.txt", b"one", 0o644), ("f", b"aA.txt", b"two", 0o644), ("d", b"v%31", [("f", b"x", b"in-escaped", 0o644)]),
+              ("d", b"v1", [("f", b"x", b"in-plain", 0o644)]), ("l", b"ln", b"v%31/x"), ("f", b"r%20f", b"", 0o755)],
+             [], [("d", b"e", [])], [("d", b"e", [("d", b"f", [])])],
              [("f", b"tool", b"#!/bin/sh\n", 0o755), ("f", b"data", b"", 0o644), ("l", b"ln", b"tool"), ("d", b"empty", [])],
              [("d", b"x", [("f", b"a", b"same", 0o644)]), ("d", b"y", [("f", b"a", b"same", 0o644)])],     # identical sub-trees
              [("d", b"x", [("f", b"a", b"same", 0o644)]), ("d", b"y", [("f", b"a", b"same", 0o755)])],     # differ in the exec bit only
